@@ -16,10 +16,16 @@ EXTENDS PsbtRoles, EvBase
 M(hexs) == PPsbtMaps(FromHex(hexs)).v
 Ms(l) == [k \in 1..Len(l) |-> M(l[k])]
 SameVersion(ps) == \A a, b \in 1..Len(ps) : VersionOf(ps[a]) = VersionOf(ps[b])
+\* what makes two PSBTs the same transaction: version 0 carries the unsigned transaction and it is the identity; version 2's identity is BIP370's,
+\* the transaction its fields build with every sequence set to zero (a sequence is a field a Signer or Updater may still move)
+IdOf(p) == LET tx == TxOfMaps(p) IN
+  IF VersionOf(p) = 0 THEN tx ELSE [tx EXCEPT !.vin = [j \in 1..Len(tx.vin) |-> [tx.vin[j] EXCEPT !.sequence = BZero]]]
+SameId(ps) == \A a, b \in 1..Len(ps) : IdOf(ps[a]) = IdOf(ps[b])
 Check(e) ==
   CASE e.op = "combine" ->
          LET ps == Ms(e.operands) IN
            IF ~SameVersion(ps) THEN e.outcome = "refused"
+           ELSE IF ~SameId(ps) THEN e.outcome = "refused"            \* PSBTs of different transactions are refused
            ELSE IF SameTransaction(ps) /\ ~Conflict(ps) THEN e.outcome = "ok" /\ CombineOK(ps, M(e.result))
            ELSE TRUE
     [] e.op = "answer" ->
@@ -35,7 +41,7 @@ Check(e) ==
 EventOK == i > 0 => Check(Trace[i])
 Diag == i > 0 => PrintT(<<"DIAG", i, <<Trace[i].op,
            CASE Trace[i].op = "combine" -> LET ps == Ms(Trace[i].operands) IN
-                  <<SameVersion(ps), SameTransaction(ps), Conflict(ps),
+                  <<SameVersion(ps), SameVersion(ps) /\ SameId(ps), SameTransaction(ps), Conflict(ps),
                     IF Trace[i].outcome = "ok" THEN [j \in 1..NMaps(ps) |-> <<Union(ps, j) \ Plain(M(Trace[i].result), j), Plain(M(Trace[i].result), j) \ Union(ps, j)>>] ELSE << >>,
                     CombinedModifiable(ps)>>
              [] Trace[i].op = "answer" -> <<AnswerShapeOK(M(Trace[i].request), M(Trace[i].answer)), Trace[i].sigs_valid>>
